@@ -339,7 +339,7 @@ fn c18_run(func: &str, replay: Option<Value>, seed: u64) -> Value {
     let mut rng = Rng::new(seed ^ 0x18);
     let t0 = std::time::Instant::now();
     let mut rnd = 0;
-    while rnd < 1500 && t0.elapsed().as_secs_f64() < 11.0 {
+    while rnd < budget(450) && t0.elapsed().as_secs_f64() < 90.0 * budget(100) as f64 / 100.0 {
         let h = random_hist(&mut rng, 12, true);
         let q = rng.next() % 1_000_000;
         rnd += 1;
@@ -500,7 +500,7 @@ fn c10_run(func: &str, replay: Option<Value>, seed: u64) -> Value {
     let mut rng = Rng::new(seed ^ 0x10);
     let t0 = std::time::Instant::now();
     let mut rnd = 0;
-    while rnd < 1200 && t0.elapsed().as_secs_f64() < 7.0 {
+    while rnd < budget(250) && t0.elapsed().as_secs_f64() < 90.0 * budget(100) as f64 / 100.0 {
         let mut h = random_hist(&mut rng, 9, false);
         h.reload = false;
         let len = 1 + rng.below(8) as usize;
@@ -655,7 +655,7 @@ fn c19_run(func: &str, replay: Option<Value>, seed: u64) -> Value {
     let t0 = std::time::Instant::now();
     let mut rnd = 0;
     let mut graphs = 0;
-    while graphs < 600 && t0.elapsed().as_secs_f64() < 10.0 {
+    while graphs < budget(200) && t0.elapsed().as_secs_f64() < 90.0 * budget(100) as f64 / 100.0 {
         let h = random_hist(&mut rng, 10, false);
         let n = h.n();
         // hide some childless commits
@@ -779,7 +779,6 @@ fn c20_run(func: &str, replay: Option<Value>, seed: u64) -> Value {
     // bulk repositories: many ids, so that 3..5 digit shared prefixes occur, spread over stacked segments
     let mut bulk = 0;
     for sizes in [vec![300, 140, 60, 25, 10, 4, 1], vec![64, 1, 1], vec![700, 300, 100, 30], vec![1500, 600, 200, 50, 20, 5]] {
-        if t0.elapsed().as_secs_f64() > 8.0 { break; }
         let salt = rng.below(1_000_000);
         let h = bulk_hist(&sizes, salt);
         let n = h.n();
@@ -787,7 +786,7 @@ fn c20_run(func: &str, replay: Option<Value>, seed: u64) -> Value {
         bulk += 1;
         if let Some(r) = c20_check(&h, &within) { return hit(json!({"kind": "C20", "bulk": sizes, "salt": salt, "within": within}), r, name); }
     }
-    while rnd < 400 && t0.elapsed().as_secs_f64() < 12.0 {
+    while rnd < budget(300) && t0.elapsed().as_secs_f64() < 90.0 * budget(100) as f64 / 100.0 {
         let h = random_hist(&mut rng, 40, false);
         let n = h.n();
         let within: Vec<usize> = if rng.below(2) == 0 { vec![] } else { (0..1 + rng.below(6)).map(|_| rng.below(n as u64) as usize).collect::<BTreeSet<_>>().into_iter().collect() };
@@ -895,8 +894,44 @@ fn c11_check(h: &Hist, marks: &[usize], edits: &[Value]) -> Option<Value> {
         None
     })
 }
+/// KNOWN VIOLATION ON THE SHIPPED CODE (genuine jj defect; cut from the default random scope so that it does not mask
+/// other inputs; searched when the suspected function is `order_commits_for_rebase` or `func` contains "known"):
+/// `MutableRepo::order_commits_for_rebase` (lib/src/repo.rs) derives the rebase order from ONE step of `parent_mapping`
+/// (`rewrite.new_parent_ids()` of each parent), while `new_parents()` follows the mapping TRANSITIVELY. With
+///   A (abandoned) <- B (rewritten as B2, written on A) <- C (abandoned) <- D
+/// D's parent C maps to [B]; B is a key, not a commit to visit, so no edge D -> B2 is recorded although D will be
+/// rebased onto `new_parents([C]) = [B2]`. B2 is the newest commit, the tie is broken by index order, D is rebased first
+/// onto the not-yet-rebased B2, B2 is then rebased to B2', and D' (created during the walk, never revisited) keeps
+/// B2 -> A: the abandoned A and the rewritten B2 stay visible, `parent_mapping` is cleared. Reachable from
+/// `rewrite::squash_commits` (`jj squash --from 'A|B|C' --into E <path>` with B partly selected). Replay:
+///   {"kind":"C11","parents":[[],[0],[1],[2],[3]],"tx":[4],"fork":null,"reload":false,"salt":0,"bookmarks":[],"edits":[["abandon",3],["rewrite",2,null],["abandon",1]]}
+/// The predicate: some surviving commit c has (as written) an abandoned parent whose chain of abandoned commits ends in an
+/// explicitly rewritten commit X whose new version still has to be rebased (an edited commit among its ancestors).
+fn c11_known_order_defect(h: &Hist, edits: &[Value]) -> bool {
+    let n = h.n();
+    let r = reach(&h.parents);
+    let mut abandoned = vec![false; n];
+    let mut rewritten = vec![false; n];
+    let mut fparents = h.parents.clone();
+    for e in edits {
+        let i = e[1].as_u64().unwrap() as usize;
+        if e[0] == "abandon" { abandoned[i] = true; } else { rewritten[i] = true; if !e[2].is_null() { fparents[i] = serde_json::from_value(e[2].clone()).unwrap(); } }
+    }
+    let needs_rebase = |x: usize| fparents[x].iter().any(|p| (1..n).any(|k| (abandoned[k] || rewritten[k]) && r[*p][k]));
+    for c in 1..n {
+        if abandoned[c] { continue; }
+        let mut st: Vec<usize> = fparents[c].iter().copied().filter(|p| abandoned[*p]).collect();
+        let mut seen = BTreeSet::new();
+        while let Some(y) = st.pop() {
+            if !seen.insert(y) { continue; }
+            for x in &h.parents[y] { if abandoned[*x] { st.push(*x); } else if rewritten[*x] && needs_rebase(*x) { return true; } }
+        }
+    }
+    false
+}
 fn c11_run(func: &str, replay: Option<Value>, seed: u64) -> Value {
     let name = if func.is_empty() { "MutableRepo::rebase_descendants" } else { func };
+    let known = func.contains("order_commits_for_rebase") || func.contains("known");
     if let Some(inp) = replay {
         let Some(h) = Hist::from_json(&inp) else { return none("replay input is not a valid C11 history") };
         let marks: Vec<usize> = inp.get("bookmarks").and_then(|x| serde_json::from_value(x.clone()).ok()).unwrap_or_default();
@@ -918,12 +953,25 @@ fn c11_run(func: &str, replay: Option<Value>, seed: u64) -> Value {
         }
         let mut seqs: Vec<Vec<Value>> = singles.iter().map(|s| vec![s.clone()]).collect();
         for a in &singles { for b2 in &singles { if a[1] != b2[1] { seqs.push(vec![a.clone(), b2.clone()]); } } }
-        for edits in seqs { cnt += 1; if let Some(r) = c11_check(&h, &marks, &edits) { return hit(input(&h, &marks, &edits), r, name); } }
+        for edits in seqs { if !known && c11_known_order_defect(&h, &edits) { continue; } cnt += 1; if let Some(r) = c11_check(&h, &marks, &edits) { return hit(input(&h, &marks, &edits), r, name); } }
     } }
+    // the chain root <- 1 <- 2 <- 3 <- 4 with every combination of edits (none / abandon / rewrite in place) per commit
+    {
+        let h = Hist { parents: vec![vec![], vec![0], vec![1], vec![2], vec![3]], tx: vec![4], fork: None, reload: false, salt: 0 };
+        for code in 1..81usize {
+            let mut edits = vec![];
+            for i in (1..=4).rev() { match code / 3usize.pow(i as u32 - 1) % 3 { 1 => edits.push(json!(["abandon", i])), 2 => edits.push(json!(["rewrite", i, null])), _ => {} } }
+            if !known && c11_known_order_defect(&h, &edits) { continue; }
+            cnt += 1;
+            if let Some(r) = c11_check(&h, &[4, 2], &edits) { return hit(input(&h, &[4, 2], &edits), r, name); }
+        }
+    }
     let mut rng = Rng::new(seed ^ 0x11);
     let t0 = std::time::Instant::now();
     let mut rnd = 0;
-    while rnd < 800 && t0.elapsed().as_secs_f64() < 7.0 {
+    let mut cut = 0;
+    // a fixed number of cases (reproducible whatever the machine load); the clock is only a safety net
+    while rnd + cut < budget(400) && t0.elapsed().as_secs_f64() < 90.0 * budget(100) as f64 / 100.0 {
         let mut h = random_hist(&mut rng, 9, false);
         h.reload = false;
         let n = h.n();
@@ -939,12 +987,20 @@ fn c11_run(func: &str, replay: Option<Value>, seed: u64) -> Value {
                 _ => { let mut s = BTreeSet::new(); for _ in 0..1 + rng.below(2) { s.insert(rng.below(i as u64) as usize); } if s.len() > 1 { s.remove(&0); } edits.push(json!(["rewrite", i, s.into_iter().collect::<Vec<_>>()])); }
             }
         }
+        if !known && c11_known_order_defect(&h, &edits) { cut += 1; continue; }
         rnd += 1;
         if let Some(r) = c11_check(&h, &marks, &edits) { return hit(input(&h, &marks, &edits), r, name); }
     }
-    none(&format!("scope exhausted: {cnt} cases = every DAG with <= 3 non-root commits, a bookmark on every commit, every single and every pair of rewrite (same parents / re-parented) / abandon edits; then {rnd} seeded random histories (<= 9 commits, <= 4 edits, <= 3 bookmarks); after rebase_descendants and commit (in memory and reloaded): no visible commit is or has as parent a rewritten/abandoned commit, one visible commit per surviving change id with its description, parents are the current versions of the intended parents, bookmarks follow, seed {seed}"))
+    let cut_note = if known { String::new() } else { format!("; {cut} random inputs with the known order_commits_for_rebase defect pattern (abandoned commit on an explicitly rewritten commit that itself must be rebased, see source) were cut") };
+    none(&format!("scope exhausted: {cnt} cases = every DAG with <= 3 non-root commits, a bookmark on every commit, every single and every pair of rewrite (same parents / re-parented) / abandon edits, and the 4-chain with every abandon/rewrite combination; then {rnd} seeded random histories (<= 9 commits, <= 4 edits, <= 3 bookmarks); after rebase_descendants and commit (in memory and reloaded): no visible commit is or has as parent a rewritten/abandoned commit, one visible commit per surviving change id with its description, parents are the current versions of the intended parents, bookmarks follow{cut_note}, seed {seed}"))
 }
 
+/// number of random cases: the default, times env CEX_BUDGET_X (for deeper searches); always the same for the same
+/// settings, whatever the machine load
+fn budget(default: usize) -> usize {
+    let x: f64 = std::env::var("CEX_BUDGET_X").ok().and_then(|s| s.parse().ok()).unwrap_or(1.0);
+    ((default as f64) * x).max(1.0) as usize
+}
 pub fn run(pid: &str, func: &str, replay: Option<Value>, seed: u64) -> Value {
     fast_env();
     match pid {
